@@ -487,7 +487,8 @@ def _c18_check(reg, case):
 
 
 StandIn("C18/labels-e2e", "C18",
-        "4 systematic histories (repeated classes, replacement introducing a new class) + 6 seeded histories of "
+        "7 systematic histories (repeated classes before other classes first appear with and without replacement, a "
+        "replacement repeating a new class followed by another new class; the folder is also read early) + 6 seeded histories of "
         "calibrate / set_samplers / set_scheduler; id stability and uniqueness, every row's id names the class that "
         "produced it (spied at the scheduler), id->name recovery from the checkpoint in row order through black_it.plot",
         "60 histories", _c18_cases, _c18_check)
